@@ -498,7 +498,9 @@ func (g *G) carrier() string {
 // (svg / math); serialising and parsing again must not bring it to life.
 func (g *G) foreignRawText() string {
 	payload := g.pick("mxpay", `&lt;img src=x onerror=alert(1) id=pwn class=c style="x:y"&gt;`, `&lt;script&gt;alert(1)&lt;/script&gt;`,
-		`&lt;b onmouseover=a() id=i&gt;x&lt;/b&gt;`, `&lt;style&gt;*{}&lt;/style&gt;&lt;p class=k&gt;`)
+		`&lt;b onmouseover=a() id=i&gt;x&lt;/b&gt;`, `&lt;style&gt;*{}&lt;/style&gt;&lt;p class=k&gt;`,
+		// markup that imitates the distiller's own embed placeholder
+		`&lt;div class="embed-placeholder" data-type="youtube" data-id="`+g.tokp("fg")+`"&gt;&lt;/div&gt;`, `&lt;div class="embed-placeholder x" data-type="vimeo" data-id="`+g.tokp("fg")+`"&gt;y&lt;/div&gt;`)
 	switch g.pick("mxform", "svg-xmp", "svg-noembed", "math-xmp", "annotation-xml", "svg-noscript", "svg-plaintext") {
 	case "svg-xmp":
 		return "<svg><xmp>" + payload + "</xmp></svg>"
